@@ -121,7 +121,10 @@ CLAIMED = {
              "records in permuted order (C09_perm, C09_perm_steps); for every m >= 1, with the values of both layouts in "
              "the domain, subdivision into m equal sub-steps gives the same weighted parts and every step record replaced "
              "by m copies scaled by 1/m, load matching factor unchanged (C09_subdivide); the derived cogeneration factor "
-             "is invariant in both cases (needs the annual-ratio factor, fix 55df7f9). Proofs: homogeneity of the step "
+             "is invariant in both cases (needs the annual-ratio factor, fix 55df7f9); normalisation commutes with both "
+             "re-layouts (C09_normalize_perm, C09_normalize_subdivide: completions and reassigned auxiliary components of the "
+             "re-laid-out building are the re-laid-out ones), so the statements hold from the declared components "
+             "(C09_perm_declared, C09_subdivide_declared). Proofs: homogeneity of the step "
              "functions (Proofs/Homog.v), annual sums invariant under permutation and block repetition, weighted parts "
              "depend on the context only through annual values. Oracle: permuted and subdivided (m in {2,3,4,7}) copies "
              "of each building evaluated by the implementation.",
@@ -150,11 +153,12 @@ CLAIMED = {
              "values are in the domain (zero or >= 0.01 kWh), energy_performance of the building with all energies "
              "(components and demands) multiplied by k is the scaled evaluation: same error, or the same structure and "
              "factors with every step record, annual value and weighted part multiplied by k; load matching factors, "
-             "service shares, RER, RER_nrb, RER_onst unchanged. Area law from C04 (C11_area). A lemma documents why the "
+             "service shares, RER, RER_nrb, RER_onst unchanged; normalisation commutes with the scaling (C11_normalize_scale), so this "
+             "holds from the declared components. Area law from C04 (C11_area). A lemma documents why the "
              "domain hypothesis is needed (the 1e-3 guard). Oracle: exact scale factors 2^-6..2^10 and 0.1, 3, 1000, area "
              "factors, incl. the DHW renewable fraction.",
         design_ref="DESIGN.md §6 C11",
-        note="Trusted: Coq kernel + vm_compute; model tied by differential testing. Invariance of the DHW fraction under scaling is a differential fact only (C15 model pending).",
+        note="Trusted: Coq kernel + vm_compute; model tied by differential testing. Invariance of the DHW fraction under scaling is a differential fact only (thresholds of 0.01 kWh in the fraction).",
         technique="Coq proof (positive homogeneity of step functions lifted to contexts, weighted parts and totals) + metamorphic oracle"),
     "C12": dict(
         text="Machine-checked theorems for every component list: with both electricity sources declared, used_pv = "
